@@ -108,3 +108,36 @@ Proof. induction a as [|x r IH]; intros b; simpl; [lra | rewrite IH; lra]. Qed.
 
 Lemma sumR_rev : forall l, sumR (rev l) = sumR l.
 Proof. induction l as [|x r IH]; simpl; [reflexivity | rewrite sumR_app, IH; simpl; lra]. Qed.
+
+(* ---- reuse of the equation system (prep.cpp: quick_setup) versus a full build (setup_pure_phases):
+   which fields x.<f> of the PP unknown are filled from the field <comp>.<f> of the assemblage component *)
+
+Definition strip_prefix (p s : string) : option string :=
+  if String.prefix p s then Some (String.substring (String.length p) (String.length s - String.length p) s) else None.
+
+(* (assigned variable, variable it is read from); `v = w ? TRUE : FALSE` (transliterated as an if) counts as read from w *)
+Fixpoint refreshes (s : stmt) : list (string * string) :=
+  match s with
+  | SAssign v (EVar w) => [(v, w)]
+  | SSeq a b => (refreshes a ++ refreshes b)%list
+  | SIf (CNz (EVar w)) (SAssign v _) (SAssign v' _) => if String.eqb v v' then [(v, w)] else []
+  | SIf _ a b => (refreshes a ++ refreshes b)%list
+  | _ => []
+  end.
+
+Definition field_of (comp : string) (vw : string * string) : option string :=
+  match strip_prefix "x." (fst vw), strip_prefix (comp ++ ".") (snd vw) with
+  | Some f1, Some f2 => if String.eqb f1 f2 then Some f1 else None
+  | _, _ => None
+  end.
+
+Fixpoint somes {A : Type} (l : list (option A)) : list A :=
+  match l with [] => [] | Some a :: r => a :: somes r | None :: r => somes r end.
+
+Definition comp_fields (comp : string) (s : stmt) : list string := somes (map (field_of comp) (refreshes s)).
+
+Definition mem_str (x : string) (l : list string) : bool := existsb (String.eqb x) l.
+
+(* every field the full build fills from the component is refreshed from the component when the model is reused *)
+Definition reuse_refreshes_all (setup_comp : string) (setup : stmt) (quick_comp : string) (quick : stmt) : bool :=
+  forallb (fun f => mem_str f (comp_fields quick_comp quick)) (comp_fields setup_comp setup).
